@@ -342,6 +342,7 @@ class ConcreteValidate(Target):
         doc_errors = [errors.FlowIRInconsistency('document-level problem', {})] if c.one_of('document_problem', [False, True]) else []
         expected += doc_errors
         self_errors = {}
+        broken = set()
         for i in range(n):
             cid = (0, 'comp%d' % i)
             ids.append(cid)
@@ -353,22 +354,30 @@ class ConcreteValidate(Target):
                 comp['command']['environment'] = env
             if imported:
                 comp['$import'] = 'doc'
+            unresolvable = c.one_of('comp%d.configuration_cannot_be_resolved' % i, [False, True]) if not imported else False
             comps[cid] = (comp, problems, env, imported)
-            if not imported:
+            if unresolvable:
+                broken.add(cid)
+            elif not imported:
                 expected += problems
 
         def get_environment(c, name, platform=None):
             if name.lower() != 'defined-env':
                 c.raise_(errors.FlowIREnvironmentUnknown, name, 'default', {})
             return {}
+        def get_configuration(c, cid, **k):
+            if cid in broken:
+                # e.g. an option that refers to a variable nobody defines
+                c.raise_(errors.FlowIRVariableUnknown, 'undefined', {}, {})
+            return dict(comps[cid][0])
         this = Obj('concrete', raw=Extern('raw', lambda c: {}), _documents={}, _flowir={}, _platform='default',
                    platforms=['default'], get_component_identifiers=Extern('get_component_identifiers', lambda c, f=True: set(ids)),
                    get_placeholder_identifiers=Extern('get_placeholder_identifiers', lambda c: set()),
                    get_application_dependencies=Extern('get_application_dependencies', lambda c: []),
                    get_component=Extern('get_component', lambda c, cid: dict(comps[cid][0])),
-                   get_component_configuration=Extern('get_component_configuration', lambda c, cid, **k: dict(comps[cid][0])),
+                   get_component_configuration=Extern('get_component_configuration', get_configuration),
                    get_environment=Extern('get_environment', get_environment))
-        return State(args=[this], comps=comps, ids=ids, expected=expected, doc_errors=doc_errors)
+        return State(args=[this], comps=comps, ids=ids, expected=expected, doc_errors=doc_errors, broken=broken)
 
     def externs(self, c, st):
         def validate_component(c, comp, **k):
@@ -383,8 +392,10 @@ class ConcreteValidate(Target):
             return [('no-exception', False)]
         got = list(out.value)
         cl = [('every-reported-problem-reaches-the-caller', all(any(e is g for g in got) for e in st.expected))]
+        cl.append(('a-component-whose-configuration-cannot-be-resolved-is-reported',
+                   sum(1 for g in got if _is_exc(g, errors.FlowIRInconsistency) and not any(g is e for e in st.expected)) >= len(st.broken)))
         for cid, (comp, problems, env, imported) in st.comps.items():
-            if imported:
+            if imported or cid in st.broken:
                 continue
             if env == 'undefined-env':
                 cl.append(('an-environment-nobody-defines-is-reported', any(_is_exc(g, errors.FlowIREnvironmentUnknown) for g in got)))
